@@ -19,6 +19,7 @@ Events are JSON lists:
     ["mutate", prop, route, tbl]    in-place mutation of the value served            (C10)
     ["pickle", route, tbl]          pickle round trip of the atom                     (C10)
     ["formula", string, tbl]        formula(string, table=T): table membership        (C10)
+    ["crowd", n]                    n further private tables, each used for a parse                    (C10)
     ["keepdrop", tbl]               keep atoms of T, drop the table object, restore the atoms by pickle/copy   (C10)
 tbl is "public", "T1" or "T2".
 """
@@ -567,6 +568,24 @@ def do_event(w, ev):
         if iso:
             mine = mine[iso]
         return [repr(a), TABLE_LABELS.get(a.table, a.table), a is mine]
+    if kind == "crowd":
+        # ["crowd", n]: n further private tables are created and each parses two formula strings (a service with one
+        # table per user); returns the crowd tables whose formulas hold atoms of another table
+        import periodictable as pt
+        from periodictable import mass, density
+        crowd = w.__dict__.setdefault("_crowd", [])
+        bad = []
+        for k in range(ev[1]):
+            t = subtable.new("crowd-%d" % len(crowd))
+            mass.init(t)
+            density.init(t)
+            crowd.append(t)
+            for text in ("H2O", "Fe[56]{2+}2O{2-}3"):
+                f = pt.formula(text, table=t)
+                names = set(a.table for a in f.atoms)
+                if names != {"crowd-%d" % (len(crowd) - 1)}:
+                    bad.append([k, sorted(names)])
+        return bad
     if kind == "formula":
         import periodictable as pt
         t = w.table(ev[2])
